@@ -424,11 +424,13 @@ func (u *Unit) callFunc(st *State, fo *types.Func, recv *Val, args []Val, c *ast
 	} else if decl := u.eng.findDecl(pk, key); decl != nil && u.canInline(decl, pk, key) {
 		if u.inlineDepth == 0 {
 			u.callN[key]++
+			u.assertArgs = append(recvList(recv), args...)
 			u.checkCallAsserts(st, pk, key, u.callN[key], c.Pos())
 		}
 		res = u.inlineDecl(st, pk, decl, recv, args, c)
 	} else {
 		u.callN[key]++
+		u.assertArgs = append(recvList(recv), args...)
 		u.checkCallAsserts(st, pk, key, u.callN[key], c.Pos())
 		res = u.callUnknown(st, pk+"."+key, sigT, append(recvList(recv), args...), c.Pos(), nil)
 	}
@@ -524,6 +526,7 @@ func (u *Unit) applyContract(st *State, ct *Contract, pk, key string, _ any, sig
 	}
 	u.usedContracts[pk+"."+key] = true
 	// in-body assertions attached to this call site
+	u.assertArgs = append(recvList(recv), args...)
 	u.checkCallAsserts(st, pk, key, k, pos)
 	for i, r := range ct.Requires {
 		u.checkClause(env, r, "pre@call", fmt.Sprintf("%s#%d.%s", shortKey(key), k, labelOr(r.Label, strconv.Itoa(i+1))), pos, st, false)
@@ -1233,6 +1236,11 @@ func (u *Unit) checkCallAsserts(st *State, pk, key string, k int, pos token.Pos)
 	for _, ca := range u.contract.CallAsserts {
 		if calleeMatches(ca.Callee, pk, key) && ca.K == k {
 			aenv := u.funcEnvAt(st, pos)
+			// the actual arguments of the call: arg0 is the receiver of a method call (or the
+			// first argument of a function), arg1, arg2, ... follow
+			for i, a := range u.assertArgs {
+				aenv.names[fmt.Sprintf("arg%d", i)] = a
+			}
 			for _, cl := range ca.Clauses {
 				u.checkClause(aenv, cl, "assert", fmt.Sprintf("%s@call %s#%d", labelOr(cl.Label, "a"), shortKey(key), k), pos, st, true)
 			}
